@@ -142,6 +142,10 @@ CLAIMED["C06"]["text"] += _CALLTR % "c06_code_call_try_response"
 CLAIMED["C05"]["technique"] += " + the code's own functions translated to Gallina on every run and proved equivalent to the model"
 CLAIMED["C02"]["text"] += CODE2 % ("client/call.rs try_write_prelude (loop), try_write_prelude_part (phase machine), do_write_send_line, do_write_headers (loop, blank line glued to the last header line); the request is represented by the rendered pieces of its request line and its effective headers",
                                    "c02_code_write_prelude, c02_code_write_headers: for every request with at least one effective header, every phase and capacity: same new phase, same bytes, same refusal; the translated loop's fuel suffices")
+CLAIMED["C04"]["text"] += (" One level up, Call<WithBody>::write in its body phase (the two refusing guards, then the writer) and Call<WithBody>::consume_direct_write are translated from src/client/call.rs as well "
+                           "and related to the model's call_write_body / call_direct_write (c04_code_call_write, c04_code_call_direct, proofs/Gen2_equiv_call2.v).")
+CLAIMED["C08"]["text"] += (" One level up, Call<RecvBody>::read (reader out of its option, ended short-circuit, BodyReader::read) is translated from src/client/call.rs as well and related to the model's call_read "
+                           "(c08_code_call_read, proofs/Gen2_equiv_call2.v).")
 _AMH = CODE2 % ("client/amended.rs AmendedRequest::headers and the accessors built on it (headers_get_all, headers_get, headers_len); the added ArrayVec, the unset list and the original HeaderMap are lists in iteration order",
                "%s: plain equalities with the model's am_headers / get_all: added headers first in the order added, then the original ones that are not unset; the unset list filters inherited headers only")
 CLAIMED["C16"]["text"] += _AMH % "c16_code_headers, c16_code_headers_len"
